@@ -8,6 +8,7 @@ import re
 
 from ..astutil import call_attr, calls_in, guard_facts, unparse, walk_local
 from ..cfg import CFG
+from ..astutil import norm_facts, text_facts
 from ..dataflow import reaching_defs, resolved_text
 from ..report import Finding, Report
 from ..srcindex import AnalysisError, Index
@@ -38,6 +39,9 @@ def check(idx: Index, rep: Report, tier: str) -> str:
             src = resolved_text(cfg, a, cfg.node_of(c))
             if front:
                 r.fail(inst + ":front", Finding("C20.R1", f.fq, f"scratch-preferred-over-designated:{unparse(a)}", f"`{unparse(c)}` puts `{src}` - a register that is only read by the parallel move - in FRONT of the designated free registers: it is chosen as scratch even when the operation names a free register, and the value living in it is clobbered", f"{PM}:{c.lineno}"))
+            nfa = norm_facts(text_facts(f.node, c))
+            if not any(re.fullmatch(rf"{re.escape(unparse(a))} in \w+", t_) and p_ is False for t_, p_ in nfa):
+                r.fail(inst + ":has-input", Finding("C20.R1", f.fq, f"scratch-with-pending-input:{unparse(a)}", f"`{unparse(c)}` adds `{src}` to the scratch pool without testing that no move writes it (`{unparse(a)} not in <moves by destination>`): when the chain walk stops early (fan-out `break`) the register is a destination that has just received its value, and a later cycle overwrites it", f"{PM}:{c.lineno}"))
             r.fail(inst, Finding("C20.R1", f.fq, f"scratch-not-designated:{unparse(a)}", f"`{unparse(c)}` adds `{src}` - a register reached at the top of a move chain, i.e. one that is only read by the parallel move - to the scratch pool; it is later overwritten to break a cycle although it is not a destination nor a designated free register (the value living in it is clobbered)", f"{PM}:{c.lineno}"))
 
     # ---- R2 xor swap template
@@ -166,6 +170,20 @@ def check(idx: Index, rep: Report, tier: str) -> str:
         r.ok(f.fq + ":width", f"{f.loc} saved and restored with the same width `{ws}`")
     else:
         r.fail(f.fq + ":width", Finding("C20.R4", f.fq, "restore-width", f"the value parked in the scratch register is saved with width `{ws}` but restored with `{wr}`: a 64-bit float restored with fmv.s is truncated", f"{PM}:{restore[0].lineno}"))
+    for c in mv:
+        if c in save or c in restore:
+            continue
+        S, W = unparse(c.args[1]), unparse(c.args[3])
+        Wr = resolved_text(cfg, c.args[3], cfg.node_of(c))
+        Sr = resolved_text(cfg, c.args[1], cfg.node_of(c))
+        inst = f"{f.fq}:mv-width@{S}->{unparse(c.args[2])}"
+        table = [n.targets[0].id for n in walk_local(f.node) if isinstance(n, ast.Assign) and isinstance(n.targets[0], ast.Name) and "input_widths" in unparse(n.value) and isinstance(n.value, (ast.Call, ast.DictComp))]
+        if any(W == f"{t}[{S}]" or Wr in (f"{t}[{S}]", f"{t}[{Sr}]") for t in table):
+            r.ok(inst, f"{PM}:{c.lineno} moved with the width registered for its own source")
+        elif Wr == ws or W == unparse(save[0].args[3]):
+            r.fail(inst, Finding("C20.R4", f.fq, f"move-width:{W}", f"`{unparse(c)}` moves `{S}` with `{W}`, the width of the move that was split to break the cycle, not the width registered for `{S}` itself: in a float cycle with mixed widths a 64-bit value is moved with fmv.s and loses its upper half", f"{PM}:{c.lineno}"))
+        else:
+            raise AnalysisError(f"{f.fq}: width argument `{W}` of `{unparse(c)[:60]}` not understood")
     if unparse(f.node).rstrip().endswith("rewriter.replace(op, (), results)"):
         r.ok(f.fq + ":replace", None)
 
